@@ -1048,6 +1048,75 @@ func h1CorrectableStream(n, repliers int) error {
 	return nil
 }
 
+// streaming correctable call that ends WITHOUT a quorum (C18.a/C09.e): `erring` of the n nodes answer with a
+// handler error over a healthy stream (their routers are not removed by any stream failure), the others
+// stream one update each; the call then ends by exhaustion (erring == n) or by its context. Whichever way
+// it ended, no router of the call is left on any node, and late updates are dropped without blocking.
+func h1CorrectableStreamNoQuorum(n, erring int) error {
+	nt := h1NewNet(n)
+	defer nt.cancel()
+	ctx, cancel := context.WithCancel(context.Background())
+	defer cancel()
+	corr := nt.cfg.CorrectableCall(ctx, CorrectableCallData{Message: &mock.Request{Val: "stream"}, Method: h1Method, ServerStream: true,
+		QuorumFunction: func(_ protoreflect.ProtoMessage, r map[uint32]protoreflect.ProtoMessage) (protoreflect.ProtoMessage, int, bool) {
+			return &mock.Response{Val: "partial"}, len(r), false
+		}})
+	var id uint64
+	for i := 0; i < n; i++ {
+		r, ok := nt.take(i)
+		if !ok {
+			return fmt.Errorf("C03/C06: no request was queued for node %d", nt.cfg[i].id)
+		}
+		id = r.msg.Metadata.MessageID
+	}
+	for i := 0; i < n; i++ {
+		r := response{nid: nt.cfg[i].id, msg: &mock.Response{Val: fmt.Sprint("update-", i)}}
+		if i < erring {
+			r = response{nid: nt.cfg[i].id, err: fmt.Errorf("handler of node %d failed", nt.cfg[i].id)}
+		}
+		if err := nt.route(i, id, r); err != nil {
+			return fmt.Errorf("C09: %v", err)
+		}
+	}
+	if erring < n {
+		time.Sleep(2 * time.Millisecond)
+		select {
+		case <-corr.Done():
+			return fmt.Errorf("C11: the streaming call completed although %d of %d streams are healthy, no quorum was reported and the context is live", n-erring, n)
+		default:
+		}
+		cancel()
+	}
+	select {
+	case <-corr.Done():
+	case <-time.After(3 * time.Second):
+		return fmt.Errorf("C11/C02: the streaming call did not complete (every stream failed: %v, context ended: %v)", erring == n, erring < n)
+	}
+	left := func() (ids []uint32) {
+		for i := 0; i < n; i++ {
+			if _, ok := nt.replyChanOf(i, id); ok {
+				ids = append(ids, nt.cfg[i].id)
+			}
+		}
+		return
+	}
+	deadline := time.Now().Add(3 * time.Second)
+	for len(left()) != 0 && time.Now().Before(deadline) {
+		time.Sleep(100 * time.Microsecond)
+	}
+	if l := left(); len(l) != 0 {
+		return fmt.Errorf("C18/C09: the streaming call has completed (%d handler errors over healthy streams, ended by exhaustion: %v) but its routers are still registered on nodes %v", erring, erring == n, l)
+	}
+	for k := 0; k < n+2; k++ {
+		for i := 0; i < n; i++ {
+			if err := nt.route(i, id, response{nid: nt.cfg[i].id, msg: &mock.Response{Val: "late"}}); err != nil {
+				return fmt.Errorf("C09: a late stream update after completion: %v", err)
+			}
+		}
+	}
+	return nil
+}
+
 // a streaming call under back-pressure (C08): its quorum function is slow, the node streams faster;
 // the node's receiver is waiting to hand over the next update when the caller's context ends. The
 // call must still complete: whatever it does before completing must not need anything the blocked
@@ -1156,6 +1225,16 @@ func TestGvcReplay(t *testing.T) {
 				count++
 				if err := h1CorrectableStream(n, k); err != nil {
 					t.Fatalf("GVC-REPLAY: CorrectableCall (server stream) violates its specification.\n  scenario: %d nodes, the first %d stream two updates each, the quorum function completes the call on the last one\n  %v", n, k, err)
+				}
+			}
+		}
+	}
+	if run("CorrectableCall") {
+		for n := 1; n <= maxN; n++ {
+			for k := 0; k <= n; k++ {
+				count++
+				if err := h1CorrectableStreamNoQuorum(n, k); err != nil {
+					t.Fatalf("GVC-REPLAY: CorrectableCall (server stream) violates its specification.\n  scenario: %d nodes, the first %d answer with a handler error over a healthy stream, the others stream one update; no quorum is reported; the call ends by exhaustion or, if a stream is still healthy, by its context\n  %v", n, k, err)
 				}
 			}
 		}
